@@ -154,7 +154,7 @@ def run (c : Cfg) : St → List Op → St × List Out
 def Justified (r : Row) : Prop :=
   r.src.hasOpcert = true ∧ r.src.opcertOk = true ∧ r.src.pool = some r.pid ∧
   lookupSd r.sd r.pid = some r.stake ∧ r.src.popOk = true ∧ r.vk = r.src.vk ∧ r.epoch = r.src.epoch ∧
-  ∃ e, r.evol = some e ∧ ∃ t, e - 1 ≤ t ∧ t ≤ e + 1 ∧ t ≤ 64 ∧ t ∈ r.src.kesOk
+  ∃ e, r.evol = some e ∧ ∃ t, e - 1 ≤ t ∧ t ≤ e + 1 ∧ t ≤ 63 ∧ t ∈ r.src.kesOk
 
 structure Inv (s : St) : Prop where
   just : ∀ r ∈ s.rows, Justified r
@@ -167,7 +167,7 @@ theorem verifier_ok_certified {period sd a pid st e}
     (h : verifierVerify false period sd a = .ok (pid, st, e)) :
     a.hasOpcert = true ∧ a.opcertOk = true ∧ a.pool = some pid ∧ lookupSd sd pid = some st ∧ a.popOk = true ∧
     e = some (period.getD 0 - a.start) ∧
-    ∃ t, (period.getD 0 - a.start) - 1 ≤ t ∧ t ≤ (period.getD 0 - a.start) + 1 ∧ t ≤ 64 ∧ t ∈ a.kesOk := by
+    ∃ t, (period.getD 0 - a.start) - 1 ≤ t ∧ t ≤ (period.getD 0 - a.start) + 1 ∧ t ≤ 63 ∧ t ∈ a.kesOk := by
   unfold verifierVerify at h
   simp only at h
   split at h
